@@ -224,6 +224,8 @@ struct Session {
     tag: String,
     private_dirs: Vec<PathBuf>,
     vars: Map<String, Value>,
+    ids: Vec<String>,      // ids of the MathML returned by the last successful set_mathml, in document order
+    old_ids: Vec<String>,  // ids of the one before
 }
 
 fn copy_dir(from: &Path, to: &Path) -> std::io::Result<()> {
@@ -260,6 +262,8 @@ impl Session {
             tag: tag.to_string(),
             private_dirs: Vec::new(),
             vars: Map::new(),
+            ids: Vec::new(),
+            old_ids: Vec::new(),
         }
     }
 
@@ -271,6 +275,16 @@ impl Session {
 
     fn subst(&self, s: &str) -> String {
         let mut out = s.replace("$RULES", &self.rules);
+        // ${ID:n} / ${OLDID:n}: the n-th id (modulo the number of ids) of the current / previous expression
+        for (pat, list) in [("${ID:", &self.ids), ("${OLDID:", &self.old_ids)] {
+            while let Some(i) = out.find(pat) {
+                let rest = &out[i + pat.len()..];
+                let j = rest.find('}').unwrap_or(rest.len());
+                let n: usize = rest[..j].parse().unwrap_or(0);
+                let rep = if list.is_empty() { "no-such-id".to_string() } else { list[n % list.len()].clone() };
+                out = format!("{}{}{}", &out[..i], rep, &rest[(j + 1).min(rest.len())..]);
+            }
+        }
         for (k, v) in &self.vars {
             if let Some(vs) = v.as_str() {
                 out = out.replace(&format!("${{{}}}", k), vs);
@@ -323,7 +337,21 @@ impl Session {
                 }
                 res_ok(Value::Object(m))
             }
-            "set_mathml" => res_of(set_mathml(self.s(op, "mathml")), Value::String),
+            "set_mathml" => {
+                let r = set_mathml(self.s(op, "mathml"));
+                if let Ok(out) = &r {
+                    let mut ids = Vec::new();
+                    let mut rest = out.as_str();
+                    while let Some(i) = rest.find(" id='") {
+                        let tail = &rest[i + 5..];
+                        let j = tail.find('\'').unwrap_or(tail.len());
+                        ids.push(tail[..j].to_string());
+                        rest = &tail[j..];
+                    }
+                    self.old_ids = std::mem::replace(&mut self.ids, ids);
+                }
+                res_of(r, Value::String)
+            }
             "speech" => res_of(get_spoken_text(), Value::String),
             "overview" => res_of(get_overview_text(), Value::String),
             "braille" => res_of(get_braille(self.s(op, "id")), Value::String),
